@@ -168,7 +168,7 @@ class Classifier:
                         # a position computed from the reftable geometry is a refblock position
                         out.add('OFF:RB')
                     continue
-                if fn.endswith('L2Entry::allocation'):
+                if fn.endswith(('L2Entry::allocation', 'L2Entry::cluster_offset')):
                     out.add('OFF:PUNCH')
                     continue
                 if fn.endswith('::clone_and_grow') or fn.endswith('RefBlock::new') or fn.endswith('L2Table::new') \
@@ -807,6 +807,11 @@ class FlowDomain(Domain):
                         c = cc
             a1 = self.cl.classify(ip, fr, term['args'][1], 'const')
             a2 = self.cl.classify(ip, fr, term['args'][2], 'const')
+            if not (a1 == 'C:0' and a2 == 'C:18446744073709551615'):
+                # the bounds travel in a value chosen per branch: constants known on this path (interpreter tags)
+                t1, t2 = tag_of_operand(term['args'][1], tags), tag_of_operand(term['args'][2], tags)
+                if t1 is not None and t1.startswith('int:') and t2 is not None and t2.startswith('int:'):
+                    a1, a2 = 'C:' + t1[4:], 'C:' + t2[4:]
             full = a1 == 'C:0' and a2 == 'C:18446744073709551615'
             ntok = tok | {('F', 'SWEPT:' + (c or '?'))}
             self._site('sweep', fr, bi, '%s %s' % (c, 'full' if full else 'range'))
